@@ -34,6 +34,22 @@ def r_cli_flags(repo, rep, R='R16.3'):
         ok = kw is not None and 'type' in kw and src(kw['type']) == typ and 'dest' not in kw
         rep.check(ok, R, w, 'cli:' + flag, '%s is a %s option stored under its own name' % (flag, typ),
                   '%s is declared as %s' % (flag, {k: src(v) for k, v in (kw or {}).items()}))
+    opts = {'disable_beta', 'beta', 'pruning_size'}
+    for rel in ('depccg/argparse.py', 'depccg/__main__.py'):
+        m_ = repo.module(rel)
+        for n in ast.walk(m_.tree):
+            tg = []
+            if isinstance(n, ast.Assign):
+                tg = n.targets
+            elif isinstance(n, (ast.AugAssign, ast.AnnAssign)):
+                tg = [n.target]
+            elif isinstance(n, ast.Call) and src(n.func) == 'setattr' and len(n.args) >= 2 and isinstance(n.args[1], ast.Constant) and n.args[1].value in opts:
+                rep.violation(R, '%s:%s' % (rel, n.lineno), '%s:option-overwritten:%s' % (rel, n.args[1].value), 'beam option %r is overwritten after parsing the command line' % n.args[1].value)
+            for t in tg:
+                if isinstance(t, ast.Attribute) and t.attr in opts:
+                    rep.violation(R, '%s:%s' % (rel, n.lineno), '%s:option-overwritten:%s' % (rel, t.attr),
+                                  'beam option `%s` is overwritten after the command line was parsed (`%s`): the user\'s setting does not reach the search' % (t.attr, src(n)[:60]))
+    rep.ok(R, w, 'no code overwrites args.beta / args.pruning_size / args.disable_beta after parsing', nontrivial=False)
     kw = flags.get('--disable-beta')
     ok = kw is not None and src(kw.get('action', ast.Constant(None))) == "'store_true'" and 'dest' not in kw and 'default' not in kw
     rep.check(ok, R, w, 'cli:--disable-beta', '--disable-beta is a store_true flag (default: filter on)',
